@@ -147,7 +147,15 @@ func c02Init(t *testing.T) {
 			p := clonePlan(sc)
 			p.Checks["report_seams"] = true
 			res := RunPlan(t, p, core.NewReplay(nil), false)
-			if res.HarnessErr != "" || len(res.Violations) > 0 || res.Stats["quiesced"] == 0 {
+			if res.HarnessErr == "" && len(res.Violations) > 0 {
+				// the property already fails without any fault: the scenario is
+				// run once more as a case of its own so that the violation is
+				// reported with a replay file (no fault enumeration on top of it)
+				c02Sem = append(c02Sem, "")
+				c02Cases = append(c02Cases, c02Case{si, ScriptedFault{Seam: "none"}})
+				continue
+			}
+			if res.HarnessErr != "" || res.Stats["quiesced"] == 0 {
 				c02Err = fmt.Sprintf("scenario %d (%s): fault-free run is not clean: harness=%q violations=%v quiesced=%d", si, sc.Note, res.HarnessErr, res.Violations, res.Stats["quiesced"])
 				return
 			}
@@ -188,7 +196,9 @@ func C02Indexed(t *testing.T, i int, seedBase uint64) (*Plan, bool) {
 	if i < len(c02Cases) {
 		c := c02Cases[i]
 		p := clonePlan(C02Scenarios()[c.scenario])
-		p.Script = []ScriptedFault{c.fault}
+		if c.fault.Seam != "none" {
+			p.Script = []ScriptedFault{c.fault}
+		}
 		p.ExpectSem = c02Sem[c.scenario]
 		p.Checks["enumerated"] = true
 		p.Note = fmt.Sprintf("%s | %s#%d %s elem=%d", p.Note, c.fault.Seam, c.fault.Ordinal, c.fault.Kind, c.fault.Elem)
